@@ -9,6 +9,7 @@ import (
 
 	"github.com/glebziz/fs_db/internal/model"
 	"github.com/glebziz/fs_db/internal/utils/os"
+	"github.com/glebziz/fs_db/internal/utils/vhook"
 )
 
 const (
@@ -16,6 +17,9 @@ const (
 )
 
 func Usage(ctx context.Context, path string) (*model.Stat, error) {
+	if free, ok := vhook.DiskFree(path); ok {
+		return &model.Stat{Path: path, Total: free, Free: free}, nil
+	}
 	st, err := diskUtil.UsageWithContext(ctx, path)
 	if errors.Is(err, os.ErrPathNotFound) {
 		err = os.MkdirAll(path, dirPerm)
